@@ -4,7 +4,7 @@ callers convert with gen_nb.to_node before handing to nbdime."""
 import copy
 import random
 
-from .gen_nb import NBGen, validate_nb, fixture_notebooks, EXOTIC_SEPS, b64, CODE_LINES
+from .gen_nb import NBGen, validate_nb, fixture_notebooks, EXOTIC_SEPS, b64, CODE_LINES, OUT_LINES
 from .gen_edit import mutate, mutate_once, edit_text
 from . import env
 
@@ -238,7 +238,8 @@ TRIPLE_CLASSES = ["random", "random", "random", "del_vs_edit", "del_vs_edit", "i
                   "both_insert_dissimilar", "same_attachment", "same_meta_key", "same_output", "same_line",
                   "minor_diff", "retype", "empty_source", "both_append_outputs", "exec_count", "fixture",
                   "nbmeta_conflict", "out_meta_conflict", "multi_line_meta", "del_vs_transient", "del_vs_transient",
-                  "both_insert_lists", "nul_in_source", "same_insert_edit_below", "transient_meta_conflict"]
+                  "both_insert_lists", "nul_in_source", "same_insert_edit_below", "transient_meta_conflict",
+                  "del_vs_output_edit"]
 
 
 def merge_triple(gen, cls=None, minor=None, plain_eol=False):
@@ -284,6 +285,24 @@ def merge_triple(gen, cls=None, minor=None, plain_eol=False):
             deleter2, rr = mutate(deleter, gen, steps=1)
             deleter["cells"] = deleter2["cells"]
         info = {"k": k, "edit": rec or what, "deleter": "local" if deleter is loc else "remote"}
+    elif cls == "del_vs_output_edit":
+        # one side deletes a code cell; the other changes one of its outputs in place (a similar stream line,
+        # a mime value, output metadata) and possibly the source too
+        c = gen.cell(m, "code")
+        c["execution_count"] = 2
+        c["outputs"] = [{"output_type": "stream", "name": "stdout", "text": "".join(gen.line(OUT_LINES) + "\n" for _ in range(r.choice([1, 3, 4])))}]
+        if r.random() < 0.5:
+            c["outputs"].insert(r.choice([0, 1]), gen.output(r.choice(["execute_result", "display_data", "error"]), ec=2))
+        pos = r.randrange(len(base["cells"]) + 1)
+        for nb in (base, loc, rem):
+            nb["cells"].insert(pos, copy.deepcopy(c))
+        deleter, editor = (loc, rem) if r.random() < 0.5 else (rem, loc)
+        del deleter["cells"][pos]
+        tmp = {"nbformat": 4, "nbformat_minor": m, "metadata": {}, "cells": [editor["cells"][pos]]}
+        rec = []
+        for what in r.choice([["edit_output"], ["edit_output", "edit_source"], ["edit_output", "edit_output"], ["mime_edit", "edit_output"], ["out_meta", "edit_output"]]):
+            rec.append(mutate_once(tmp, gen, what) or what)
+        info = {"pos": pos, "edit": rec, "deleter": "local" if deleter is loc else "remote"}
     elif cls == "del_vs_transient":
         # one side removes a cell or one of its outputs, the other changes ONLY transient fields of that item
         # (execution counts, collapsed / scrolled / autoscroll)
@@ -451,6 +470,9 @@ def merge_triple(gen, cls=None, minor=None, plain_eol=False):
     elif cls == "same_attachment":
         c = gen.cell(m, "markdown")
         c["attachments"] = {"a.png": gen.mimebundle(True)} if r.random() < 0.6 else {}
+        # leftovers of an earlier conflicted merge that the user resolved only partly
+        for left in r.sample(["LOCAL_a.png", "REMOTE_a.png"], r.choice([0, 0, 1, 1, 2])):
+            c["attachments"][left] = gen.mimebundle(True)
         if not c["attachments"] and r.random() < 0.5:
             del c["attachments"]
         for nb in (base, loc, rem):
@@ -501,9 +523,11 @@ def merge_triple(gen, cls=None, minor=None, plain_eol=False):
                 md(rem)[key] = gen.value()
             else:
                 md(rem).pop(key, None)
-        if "nbdime-conflicts" not in md(base) and r.random() < 0.15:
+        if "nbdime-conflicts" not in md(base) and r.random() < 0.2:
             for nb in (base, loc, rem):
                 md(nb)["nbdime-conflicts"] = {"local_diff": [], "remote_diff": []}
+            if r.random() < 0.4:      # one side cleaned the recorded conflicts up
+                md(r.choice([loc, rem])).pop("nbdime-conflicts")
         info = {"target": target, "key": key}
     elif cls in ("same_output", "both_append_outputs", "out_meta_conflict"):
         c = gen.cell(m, "code")
